@@ -121,9 +121,71 @@ pub struct State {
     pub n_partial: u64,
     pub n_switch: u64,
     pub n_steps: u64,
+    /// the peer that ran last
+    cur: usize,
+    /// sync peers: the yielding peer's thread takes the scheduling decision itself and hands the
+    /// baton directly to the next peer (no round trip through the driver thread)
+    chain: bool,
+    phase_end: Option<PhaseEnd>,
+    budget: u32,
+    /// when Some: a hash of the global state (bytes written / delivered per direction, peer statuses,
+    /// closes, events so far) is pushed at every scheduler step
+    pub state_log: Option<Vec<u64>>,
+}
+
+enum Pick {
+    Run(usize),
+    End(PhaseEnd),
 }
 
 impl State {
+    /// the scheduling decision: which peer runs next (explorer choice when both can)
+    fn pick_next(&mut self) -> Pick {
+        if self.budget == 0 {
+            return Pick::End(PhaseEnd::Spin);
+        }
+        self.budget -= 1;
+        let settled = |s: Stat| matches!(s, Stat::AtBarrier | Stat::Done);
+        if settled(self.stat[0]) && settled(self.stat[1]) {
+            return Pick::End(PhaseEnd::Complete);
+        }
+        let (c, o) = (self.cur, other(self.cur));
+        // a re-poll after an injected Pending is not a scheduling point
+        if self.stat[c] == Stat::Repoll {
+            return Pick::Run(c);
+        }
+        match (self.enabled(c), self.enabled(o)) {
+            (true, true) => Pick::Run(if self.choose(2, self.knobs.sched) == 1 { o } else { c }),
+            (true, false) => Pick::Run(c),
+            (false, true) => Pick::Run(o),
+            (false, false) => Pick::End(PhaseEnd::Deadlock),
+        }
+    }
+    /// bookkeeping before peer `p` runs one segment; grants its read if it is blocked in one
+    fn begin_step(&mut self, p: usize) {
+        self.n_steps += 1;
+        self.snapshot();
+        if self.stat[p] == Stat::AtRead {
+            self.decide_grant(p);
+        }
+        if p != self.cur {
+            self.n_switch += 1;
+        }
+        self.cur = p;
+    }
+    fn snapshot(&mut self) {
+        if self.state_log.is_none() {
+            return;
+        }
+        let key = (
+            (self.dirs[0].wire.len(), self.dirs[0].delivered, self.dirs[0].writer_closed),
+            (self.dirs[1].wire.len(), self.dirs[1].delivered, self.dirs[1].writer_closed),
+            (self.stat[0] as u8, self.stat[1] as u8, self.closed),
+            self.events.len(),
+        );
+        let h = vx_kit::hash_of(&key);
+        self.state_log.as_mut().unwrap().push(h);
+    }
     pub fn ev(&mut self, e: String) {
         if self.recording {
             self.events.push(e);
@@ -143,7 +205,7 @@ impl State {
         let d = &mut self.dirs[side];
         d.wire.extend_from_slice(data);
         if !rc {
-            d.buf.extend(data.iter().copied());
+            d.buf.extend(data);
         }
         let mut evs = vec![];
         loop {
@@ -196,20 +258,24 @@ impl State {
             _ => false,
         }
     }
-    fn take_grant(&mut self, side: usize, buf: &mut [u8]) -> std::io::Result<usize> {
+    /// the bytes of the granted read (at most `cap`), empty at the end of the stream
+    fn take_grant(&mut self, side: usize, cap: usize) -> std::io::Result<Vec<u8>> {
         match self.grant[side].take() {
             Some(Grant::Bytes(n)) => {
                 let d = &mut self.dirs[other(side)];
-                let n = n.min(buf.len()).min(d.buf.len());
-                for b in buf.iter_mut().take(n) {
-                    *b = d.buf.pop_front().unwrap();
-                }
+                let n = n.min(cap).min(d.buf.len());
+                let mut out: Vec<u8> = Vec::with_capacity(n);
+                let (a, b) = d.buf.as_slices();
+                let na = n.min(a.len());
+                out.extend_from_slice(&a[..na]);
+                out.extend_from_slice(&b[..n - na]);
+                d.buf.drain(..n);
                 d.delivered += n;
-                Ok(n)
+                Ok(out)
             }
             Some(Grant::Eof) => {
                 self.ev(format!("eof({})", side_name(side)));
-                Ok(0)
+                Ok(vec![])
             }
             Some(Grant::TimedOut) | None => Err(std::io::Error::new(
                 std::io::ErrorKind::TimedOut,
@@ -263,7 +329,8 @@ impl State {
 
 pub struct Shared {
     pub m: Mutex<State>,
-    cv: Condvar,
+    /// one condition variable per party: [R, A, driver]
+    cv: [Condvar; 3],
 }
 
 impl Shared {
@@ -287,8 +354,13 @@ impl Shared {
                 n_partial: 0,
                 n_switch: 0,
                 n_steps: 0,
+                cur: R,
+                chain: false,
+                phase_end: None,
+                budget: 0,
+                state_log: None,
             }),
-            cv: Condvar::new(),
+            cv: [Condvar::new(), Condvar::new(), Condvar::new()],
         })
     }
     pub fn lock(&self) -> std::sync::MutexGuard<'_, State> {
@@ -297,15 +369,44 @@ impl Shared {
     pub fn event(&self, e: String) {
         self.lock().ev(e);
     }
-    /// sync peer: hand the baton to the driver with status `st`, wait to be resumed
+    fn wake(&self, t: Turn) {
+        match t {
+            Turn::Peer(p) => self.cv[p].notify_one(),
+            Turn::Driver => self.cv[2].notify_one(),
+        }
+    }
+    /// the running sync peer gives up the baton: in chain mode it schedules the next segment itself
+    fn pass_on(&self, g: &mut State, side: usize) -> bool {
+        if g.chain {
+            match g.pick_next() {
+                Pick::Run(p) => {
+                    g.begin_step(p);
+                    if p == side {
+                        return true; // keeps running
+                    }
+                    g.turn = Turn::Peer(p);
+                }
+                Pick::End(e) => {
+                    g.phase_end = Some(e);
+                    g.chain = false;
+                    g.turn = Turn::Driver;
+                }
+            }
+        } else {
+            g.turn = Turn::Driver;
+        }
+        self.wake(g.turn);
+        false
+    }
+    /// sync peer: yield with status `st`, return when resumed
     fn sync_yield(&self, side: usize, st: Stat, want: usize) {
         let mut g = self.lock();
         g.stat[side] = st;
         g.want[side] = want;
-        g.turn = Turn::Driver;
-        self.cv.notify_all();
-        while g.turn != Turn::Peer(side) {
-            g = self.cv.wait(g).unwrap_or_else(|e| e.into_inner());
+        if !self.pass_on(&mut g, side) {
+            while g.turn != Turn::Peer(side) {
+                g = self.cv[side].wait(g).unwrap_or_else(|e| e.into_inner());
+            }
         }
         g.stat[side] = Stat::Running;
     }
@@ -366,7 +467,9 @@ impl std::io::Read for SyncEnd {
             return Err(std::io::Error::new(std::io::ErrorKind::NotConnected, "read on a closed end"));
         }
         self.sh.sync_yield(self.side, Stat::AtRead, buf.len());
-        self.sh.lock().take_grant(self.side, buf)
+        let got = self.sh.lock().take_grant(self.side, buf.len())?;
+        buf[..got.len()].copy_from_slice(&got);
+        Ok(got.len())
     }
 }
 impl std::io::Write for SyncEnd {
@@ -444,11 +547,10 @@ impl tokio::io::AsyncRead for AsyncEnd {
             )));
         }
         if g.grant[side].is_some() {
-            let mut tmp = vec![0u8; buf.remaining().min(g.want[side].max(1))];
-            let r = g.take_grant(side, &mut tmp);
+            let r = g.take_grant(side, buf.remaining());
             drop(g);
             self.pended = false;
-            return Poll::Ready(r.map(|n| buf.put_slice(&tmp[..n])));
+            return Poll::Ready(r.map(|v| buf.put_slice(&v)));
         }
         g.stat[side] = Stat::AtRead;
         g.want[side] = buf.remaining();
@@ -511,26 +613,58 @@ impl Drop for AsyncEnd {
 pub trait Resume {
     /// run peer `p` until it yields; its new status is in the shared state
     fn resume(&mut self, p: usize);
+    /// can the peers schedule each other without the driver (sync threads)?
+    fn chains(&self) -> bool {
+        false
+    }
+}
+
+type Job = Box<dyn FnOnce() + Send>;
+thread_local! {
+    /// two persistent peer threads per exploring thread (spawning two OS threads per execution
+    /// serialises the whole process on the address-space lock)
+    static POOL: std::cell::RefCell<Option<[std::sync::mpsc::Sender<Job>; 2]>> = const { std::cell::RefCell::new(None) };
+}
+fn pool_run(side: usize, job: Job) {
+    POOL.with(|p| {
+        let mut p = p.borrow_mut();
+        if p.is_none() {
+            let mk = |name: &str| {
+                let (tx, rx) = std::sync::mpsc::channel::<Job>();
+                std::thread::Builder::new()
+                    .name(name.to_string())
+                    .stack_size(1 << 20)
+                    .spawn(move || {
+                        while let Ok(job) = rx.recv() {
+                            job();
+                        }
+                    })
+                    .expect("spawn peer thread");
+                tx
+            };
+            *p = Some([mk("peer-R"), mk("peer-A")]);
+        }
+        p.as_ref().unwrap()[side].send(job).expect("peer thread is gone");
+    });
 }
 
 pub struct SyncPeers {
     sh: Arc<Shared>,
-    handles: Vec<std::thread::JoinHandle<()>>,
 }
 impl SyncPeers {
     pub fn new(sh: &Arc<Shared>) -> Self {
-        SyncPeers { sh: sh.clone(), handles: vec![] }
+        SyncPeers { sh: sh.clone() }
     }
     /// `body` gets this side's end of the connection; it starts when first resumed
     pub fn spawn(&mut self, side: usize, body: Box<dyn FnOnce(SyncEnd) + Send>) {
         let sh = self.sh.clone();
-        let h = std::thread::Builder::new()
-            .stack_size(1 << 20)
-            .spawn(move || {
+        pool_run(
+            side,
+            Box::new(move || {
                 {
                     let mut g = sh.lock();
                     while g.turn != Turn::Peer(side) {
-                        g = sh.cv.wait(g).unwrap_or_else(|e| e.into_inner());
+                        g = sh.cv[side].wait(g).unwrap_or_else(|e| e.into_inner());
                     }
                     g.stat[side] = Stat::Running;
                 }
@@ -542,26 +676,24 @@ impl SyncPeers {
                     g.close(side);
                 }
                 g.stat[side] = Stat::Done;
-                g.turn = Turn::Driver;
-                sh.cv.notify_all();
-            })
-            .expect("spawn peer thread");
-        self.handles.push(h);
+                sh.pass_on(&mut g, side);
+            }),
+        );
     }
-    pub fn join(self) {
-        for h in self.handles {
-            let _ = h.join();
-        }
-    }
+    /// nothing to wait for: a peer is Done before the driver gets the baton back
+    pub fn join(self) {}
 }
 impl Resume for SyncPeers {
     fn resume(&mut self, p: usize) {
         let mut g = self.sh.lock();
         g.turn = Turn::Peer(p);
-        self.sh.cv.notify_all();
+        self.sh.cv[p].notify_one();
         while g.turn != Turn::Driver {
-            g = self.sh.cv.wait(g).unwrap_or_else(|e| e.into_inner());
+            g = self.sh.cv[2].wait(g).unwrap_or_else(|e| e.into_inner());
         }
+    }
+    fn chains(&self) -> bool {
+        true
     }
 }
 
@@ -662,62 +794,46 @@ pub enum PhaseEnd {
 
 pub struct Driver {
     pub sh: Arc<Shared>,
-    cur: usize,
 }
 
 impl Driver {
     pub fn new(sh: &Arc<Shared>) -> Self {
-        Driver { sh: sh.clone(), cur: R }
+        Driver { sh: sh.clone() }
     }
-    /// resume `p`, granting its pending read if it is blocked in one
+    /// resume `p` for exactly one segment, granting its pending read if it is blocked in one
     pub fn step(&mut self, peers: &mut dyn Resume, p: usize) {
         {
             let mut g = self.sh.lock();
-            g.n_steps += 1;
-            if g.stat[p] == Stat::AtRead {
-                g.decide_grant(p);
-            }
+            g.chain = false;
+            g.begin_step(p);
         }
         peers.resume(p);
-        self.cur = p;
     }
     /// Run until both peers are at a barrier / done. Scheduling and segmentation are explorer choices.
     pub fn run_phase(&mut self, peers: &mut dyn Resume) -> PhaseEnd {
-        let mut budget = 200_000u32;
+        {
+            let mut g = self.sh.lock();
+            g.budget = 200_000;
+            g.phase_end = None;
+        }
         loop {
-            budget -= 1;
-            if budget == 0 {
-                return PhaseEnd::Spin;
-            }
-            let pick = {
-                let g = self.sh.lock();
-                let settled = |s: Stat| matches!(s, Stat::AtBarrier | Stat::Done);
-                if settled(g.stat[0]) && settled(g.stat[1]) {
-                    return PhaseEnd::Complete;
-                }
-                let (c, o) = (self.cur, other(self.cur));
-                // a re-poll after an injected Pending is not a scheduling point
-                if g.stat[c] == Stat::Repoll {
-                    c
-                } else {
-                    match (g.enabled(c), g.enabled(o)) {
-                        (true, true) => {
-                            if g.choose(2, g.knobs.sched) == 1 {
-                                o
-                            } else {
-                                c
-                            }
-                        }
-                        (true, false) => c,
-                        (false, true) => o,
-                        (false, false) => return PhaseEnd::Deadlock,
+            let p = {
+                let mut g = self.sh.lock();
+                match g.pick_next() {
+                    Pick::End(e) => return e,
+                    Pick::Run(p) => {
+                        g.begin_step(p);
+                        g.chain = peers.chains();
+                        p
                     }
                 }
             };
-            if pick != self.cur {
-                self.sh.lock().n_switch += 1;
+            peers.resume(p);
+            let mut g = self.sh.lock();
+            g.chain = false;
+            if let Some(e) = g.phase_end.take() {
+                return e;
             }
-            self.step(peers, pick);
         }
     }
     /// let both peers leave the barrier
@@ -749,7 +865,7 @@ impl Driver {
                 if g.stat[0] == Stat::Done && g.stat[1] == Stat::Done {
                     return true;
                 }
-                let (c, o) = (self.cur, other(self.cur));
+                let (c, o) = (g.cur, other(g.cur));
                 if g.enabled(c) {
                     c
                 } else if g.enabled(o) {
